@@ -11,6 +11,12 @@ type vAddr struct {
 	k string
 }
 
+type vListAddr struct {
+	m   map[string]interface{}
+	k   string
+	old []interface{}
+}
+
 func vC10(spec vSpec, maxSteps int, withSub bool) {
 	m := vNondetMap(spec)
 	k := vNondetString(1, 1, "ab")
@@ -55,6 +61,7 @@ func vC10(spec vSpec, maxSteps int, withSub bool) {
 
 	// reference: the addressed entries (Appendix A.5)
 	var E []vAddr
+	var lists []vListAddr
 	F := refFrontier(steps, m)
 	if formA {
 		vCover("formA")
@@ -74,8 +81,12 @@ func vC10(spec vSpec, maxSteps int, withSub bool) {
 				continue
 			}
 			if len(conds) > 0 {
-				_, isList := cur.([]interface{})
-				vAssume(!isList) // member-wise vs whole-list replacement under sub-keys: not specified
+				if l, isList := cur.([]interface{}); isList {
+					// member-wise vs whole-list replacement under sub-keys is not specified;
+					// whichever happens, the count must equal the number of values replaced
+					lists = append(lists, vListAddr{xm, k, append([]interface{}{}, l...)})
+					continue
+				}
 				vAssume(!vAmbiguousPred([]interface{}{x}, conds))
 				if !refPred(x, conds) {
 					continue
@@ -110,7 +121,25 @@ func vC10(spec vSpec, maxSteps int, withSub bool) {
 	mark := vMark(m)
 	cnt, err := Map(m).UpdateValuesForPath(newVal, path, specs...)
 	vAssert(err == nil, "update: well-formed arguments give no error")
-	vAssert(cnt == len(E), "update: the count equals the number of addressed values")
+	replacedInLists := 0
+	var listRefs []vRef
+	for _, la := range lists {
+		cur := la.m[la.k]
+		if nl, ok := cur.([]interface{}); ok && len(nl) == len(la.old) {
+			for i := range nl {
+				if !vSame(nl[i], la.old[i]) {
+					vAssert(vSame(nl[i], v), "update: a replaced list member holds the new value")
+					replacedInLists++
+				}
+			}
+		} else {
+			vAssert(vSame(cur, v), "update: a replaced list value holds the new value")
+			replacedInLists++
+		}
+		listRefs = append(listRefs, vEntry(la.m, la.k))
+		vCover("list-under-subkeys")
+	}
+	vAssert(cnt == len(E)+replacedInLists, "update: the count equals the number of values replaced")
 	refs := make([]vRef, len(E))
 	for i, e := range E {
 		cur, has := e.m[e.k]
@@ -122,6 +151,7 @@ func vC10(spec vSpec, maxSteps int, withSub bool) {
 	} else {
 		vCover("some")
 	}
+	refs = append(refs, listRefs...)
 	vAssertUnchangedSince(mark, "update: every entry other than the addressed ones is exactly as it was", refs...)
 	if formA && len(conds) == 0 {
 		vs, verr := Map(m).ValuesForPath(path)
@@ -135,10 +165,10 @@ func vC10(spec vSpec, maxSteps int, withSub bool) {
 
 func H_C10_update() {
 	if vTier() == 1 {
-		vC10(vSpec{Depth: 3, Width: 2, Kinds: "mlsn", KeyAlpha: "ab", KeyMin: 1, KeyMax: 1, StrAlpha: "xy", StrMin: 1, StrMax: 1, NoListInList: true}, 3, true)
+		vC10(vSpec{Depth: 3, Width: 2, Kinds: "mlsn", KeyAlpha: "ab", KeyMin: 1, KeyMax: 1, StrAlpha: "xy", StrMin: 1, StrMax: 1, NoListInList: false}, 3, true)
 		return
 	}
-	vC10(vSpec{Depth: 2, Width: 2, Kinds: "mlsn", KeyAlpha: "ab", KeyMin: 1, KeyMax: 1, StrAlpha: "xy", StrMin: 1, StrMax: 1, NoListInList: true}, 2, true)
+	vC10(vSpec{Depth: 2, Width: 2, Kinds: "mlsn", KeyAlpha: "ab", KeyMin: 1, KeyMax: 1, StrAlpha: "xy", StrMin: 1, StrMax: 1}, 2, true)
 }
 
 func H_C10_update_deep() {
@@ -146,7 +176,7 @@ func H_C10_update_deep() {
 	if vTier() == 1 {
 		d, s = 6, 4
 	}
-	vC10(vSpec{Depth: d, Width: 1, Kinds: "mlsn", KeyAlpha: "ab", KeyMin: 1, KeyMax: 1, StrAlpha: "xy", StrMin: 1, StrMax: 1, NoListInList: true}, s, false)
+	vC10(vSpec{Depth: d, Width: 1, Kinds: "mlsn", KeyAlpha: "ab", KeyMin: 1, KeyMax: 1, StrAlpha: "xy", StrMin: 1, StrMax: 1}, s, false)
 }
 
 // malformed new values are rejected with an error and without touching the Map
